@@ -25,6 +25,7 @@ RULES = {
     "R17.4": "flat re-entry: a loop whose output is flattened re-enters a spatial layer through its Data::Single arm, which must "
              "re-chunk with the layer's own input height/width (R02.3 re-checked here)",
 }
+RULES["R17.5"] = "tensors crossing a connection are re-shaped by Tensor::reshape / flatten: count assertion first, row-major rebuild (R14.1/R14.2 re-run under this property)"
 RULES["R17.3"] += " | index validation and duplicate guard are read off the path conditions of the insert into self.loopbacks"
 ASSUMPTIONS = ["the accumulated values are not decided"]
 TRUSTED = ["rustc nightly front end", "driver/src/main.rs", "sa/e1.py", "sa/e4.py", "sa/extract.py (for the primitives)"]
@@ -290,7 +291,21 @@ def r3(ctx):
     ctx.check("R17.3", "stored-triple", ok, "stored-connection", c.loc(fn), "loopbacks.insert(outof, (into, iterations, inskips))")
 
 
+def reshape_helpers(ctx, rule):
+    """values cross a skip / loop connection through Tensor::reshape / flatten: both keep the row-major element sequence (C14's R14.1/R14.2 re-run)"""
+    from . import c14
+    sub = type(ctx)(ctx.prop, ctx.facts)
+    sub.guard("R14.1", "reshape", c14.r1_r2_reshape, sub)
+    sub.guard("R14.2", "flatten", c14.r2_flatten, sub)
+    bad = [o for o in sub.obligations if o["status"] != "ok"]
+    for o in bad:
+        ctx.bad(rule, "reshape:" + o["instance"], o["key"].split("/", 3)[-1], o["where"], o["detail"])
+    ctx.check(rule, "reshape-is-row-major", not bad and len(sub.obligations) >= 9, "reshape-broken", "src/tensor.rs",
+              "%d facts: reshape asserts the element count and rebuilds in row-major order; flatten / get_flat / get_triple are row-major" % len(sub.obligations))
+
+
 def run(ctx):
+    ctx.guard("R17.5", "reshape", reshape_helpers, ctx, "R17.5")
     r = ctx.guard("R17.1", "re-run", r1, ctx)
     if r:
         ctx.guard("R17.2", "accumulation", r2, ctx, *r)
